@@ -1,9 +1,13 @@
 import Pw.C01.Driver
+import Pw.C12.Driver
+import Pw.C11.Driver
 open Proto
 
 /-- all request handlers; each property contributes `CNN.handlers` -/
 def handlers : List (String × Handler) :=
   C01.handlers
+  ++ C12.handlers
+  ++ C11.handlers
 
 def dispatch (line : String) : String :=
   let (fn, args) := parseLine line
